@@ -325,12 +325,24 @@ func Y(site, kind string) {
 	s.park(site, kind, nil)
 }
 
+// SpinLocks makes Acquire poll with durable sleeps when no scheduler is
+// installed (T2: instrumented repo code running unscheduled in a bubble).
+var SpinLocks bool
+
 // Acquire replaces x.Lock()/x.RLock(): the goroutine parks and the scheduler
 // performs the TryLock on its behalf when it picks it, so a contended lock is
 // a scheduler-visible wait and never a non-durable block.
 func Acquire(site string, try func() bool, lock func()) {
 	s := S
 	if s == nil {
+		if SpinLocks {
+			// unscheduled tier inside a bubble: a goroutine blocked on a sync.Mutex
+			// is not durably blocked and would freeze the fake clock
+			for !try() {
+				time.Sleep(20 * time.Microsecond)
+			}
+			return
+		}
 		lock()
 		return
 	}
